@@ -190,7 +190,7 @@ func (e *Engine) runPass(pc *passCtx, pass int, final bool) bool {
 			last := from.Instrs[len(from.Instrs)-1]
 			e.curFr, e.curIns = fr, last
 			e.checkDirty(st, fr, func(obj PtrV, ok bool, why string) {
-				e.Check(st, fr, last.Pos(), "I-inv", "declared invariant of "+namedOf(obj.T)+" after block "+fmt.Sprint(from.Index)+" of "+fn.Name(), ok, why)
+				e.Check(st, fr, last.Pos(), "I-inv", "declared invariant of "+namedOf(obj.T)+" in "+fn.Name(), ok, why)
 			})
 		}
 		if len(st.cons) > 40 {
@@ -271,7 +271,7 @@ func (e *Engine) runPass(pc *passCtx, pass int, final bool) bool {
 						r = tv
 					}
 					e.checkDirty(st, fr, func(obj PtrV, ok bool, why string) {
-						e.Check(st, fr, t.Pos(), "I-inv", "declared invariant of "+namedOf(obj.T)+" at return of "+fn.Name(), ok, why)
+						e.Check(st, fr, t.Pos(), "I-inv", "declared invariant of "+namedOf(obj.T)+" in "+fn.Name(), ok, why)
 					})
 					if e.Cfg.Hooks.OnReturn != nil {
 						e.Cfg.Hooks.OnReturn(e, st, fr, t, r)
@@ -378,7 +378,7 @@ func (e *Engine) headStates(pc *passCtx, b *ssa.BasicBlock, fwd map[edge][]*Stat
 					break
 				}
 			}
-			e.Check(nil, fr, pos, "P-rank", fmt.Sprintf("loop at block %d of %s", b.Index, fr.fn.Name()), ri.ok, ri.why)
+			e.Check(nil, fr, pos, "P-rank", fmt.Sprintf("loop #%d of %s (%s)", loopOrdinal(pc, b), fr.fn.Name(), loopLabel(b)), ri.ok, ri.why)
 		}
 		var out []*State
 		var ls []int
@@ -1569,4 +1569,36 @@ func (e *Engine) exitsAtHead(st *State, fr *Frame, b *ssa.BasicBlock) bool {
 		}
 	}
 	return !body[b.Succs[taken]]
+}
+
+// loopOrdinal: 1-based position of head b among the loop heads of the function (reverse post-order).
+func loopOrdinal(pc *passCtx, b *ssa.BasicBlock) int {
+	n := 0
+	for _, x := range pc.order {
+		if pc.isHead[x] {
+			n++
+			if x == b {
+				return n
+			}
+		}
+	}
+	return 0
+}
+
+// loopLabel names the loop by the variables its header merges.
+func loopLabel(b *ssa.BasicBlock) string {
+	var names []string
+	for _, ins := range b.Instrs {
+		ph, ok := ins.(*ssa.Phi)
+		if !ok {
+			break
+		}
+		if ph.Comment != "" {
+			names = append(names, ph.Comment)
+		}
+	}
+	if len(names) == 0 {
+		return b.Comment
+	}
+	return b.Comment + " " + strings.Join(names, ",")
 }
